@@ -23,7 +23,8 @@ RULE = ("systematic sweep: for every public data operation (single- and multi-ke
         "call receives was sent in answer to that call's own commands (reply tags); no recv that can never be "
         "satisfied; no reply left unread on a connection that stays open; the follow-up store and fetch return the "
         "right answers. Non-trivial: a fault actually fired (taken from the log) and a later call used the object. The operation library also spells noreply / default_noreply as non-bool values (1, 'yes', 2, 1.0 / 0, '', 'no' is truthy), judged by their truth value. Stacks built around Client subclasses (default_noreply settled after the base constructor, connecting in the constructor, keys mapped into a namespace) and the ElastiCache subclass run through the same sweeps; calls nested in calls (a serializer or deserializer that uses the same pooled client) must each get the answer to their own command. Every call made through vlib/ops.invoke also has to leave the caller's argument objects unchanged and return containers that were not handed out before. Long lives: 1200 (thorough 4000) calls over the whole library on one object, every ninth hit by a fault; batches with megabytes of good items, or ten thousand keys, before the one the client refuses."
-        + ' Rounds 15-17: a key that is legal alone and too long only with the key prefix (values that spell commands) must be refused before anything is sent; every fault sweep has a send interrupted by EINTR after nothing / the first command / everything went out.')
+        + ' Rounds 15-17: a key that is legal alone and too long only with the key prefix (values that spell commands) must be refused before anything is sent; every fault sweep has a send interrupted by EINTR after nothing / the first command / everything went out.'
+        + " The operation library (shared with C06, C07, C09, C10) also spells noreply=None explicitly for incr, decr, cas, set, set_many, delete, delete_many, touch and flush_all: the operation's documented default.")
 MANIFEST = {
     "category": "fault_enumeration",
     "technique": "systematic single-fault enumeration at every socket event and every server reply of every operation (positions taken from a fault-free dry run) + Hypothesis multi-fault histories; reply-ownership oracle over a tagged fake connection",
